@@ -9,14 +9,25 @@ import UralModel.Lemmas.CanonShape
 `Props/C17.lean` applied to the models of the functions `links_from_html` calls.  What stays
 outside (`World`): the idna codec `puny` and the TLD table `validTld`.
 
-* **`canon_preserves_is_url`** — "`canonicalize_url` preserves `is_url`" for the concrete
-  models, on the decidable class `region` (ASCII scheme, no `@` behind the authority), for
-  every idna decoder that maps host labels to host labels
-  (`PunyLabelSafe`) and every TLD table.  The clause is **false** without these hypotheses,
-  on the models (`canon_not_preserving_outside_region`, `canon_not_preserving_bad_puny`) and
-  on the implementation (KF-C17-3, KF-C17-4; KF-C17-5 lies outside the parser model).
-* **`links_are_urls_concrete`**, **`links_should_follow_concrete`** — the two clauses that were
-  `_partial` for arbitrary parameters, without the hypothesis on the parameters.
+* **`links_are_urls_concrete`**, **`links_should_follow_concrete`**, **`links_http_concrete`** —
+  the clauses "every yielded link is accepted by `is_url` / by `should_follow_href` / is an
+  absolute http(s) URL" for the concrete models, **without any hypothesis** (no class of
+  inputs, nothing assumed of the idna codec or the TLD table): since /repo 6e8a1b4 the chain
+  tests `is_url` again after `canonicalize_url`, so the first is an instance of
+  `links_are_urls`, and the other two follow from what the `is_url` model accepts
+  (`isUrlC_implies_http`, `httpMatch_not_hash`, both proved here).
+* **`canon_preserves_is_url_on`** / **`canon_preserves_is_url`** — a SIDE theorem about
+  `canonicalize_url` itself, no longer used by the clauses above: "`canonicalize_url` preserves
+  `is_url`" for the concrete models, on the decidable class `region` (ASCII scheme, no `@`
+  behind the authority), for every TLD table and every idna decoder that maps to host labels
+  the `xn--` labels **that occur in the hostname of the URL** (`PunySafeOnHostOf`).  The older
+  statement with the global hypothesis `PunyLabelSafe` (every label decodes to a label) is
+  kept as a corollary, but `PunyLabelSafe` is FALSE for CPython's codec
+  (`'xn---a-cja'.encode().decode('idna') == '-aé'`), so that corollary says nothing about the
+  real codec; the `_on` form applies to it on every URL whose own labels decode to labels.
+  The clause is **false** without these hypotheses, on the models
+  (`canon_not_preserving_outside_region`, `canon_not_preserving_bad_puny`) and on the
+  implementation (the former KF-C17-3, KF-C17-4; KF-C17-5 lies outside the parser model).
 * the clauses that hold for arbitrary parameters, instantiated (`links_*_concrete`).
 -/
 namespace Ural.Props.C17
@@ -28,15 +39,8 @@ open Ural.Gen.Patterns
 /-- the only exception the model of `safe_urlsplit(…).hostname` produces is the `ValueError`
 that `is_url` catches: `isUrlC` (a `Bool`) loses nothing -/
 theorem isUrlC_total (W : World) (u : Str) :
-    ∃ b, IsUrl.is_url (isUrlEnv W) u linkOpts = .ok b := by
-  refine Ural.Props.C16.isurl_total (isUrlEnv W) ?_ u linkOpts
-  intro s e he
-  have he' : safeHostname s = .error e := he
-  unfold safeHostname at he'
-  generalize (if pyMatch PROTOCOL_RE s = true then s else "http://".toList ++ s) = url at he'
-  cases hq : Py.urlsplit url [] with
-  | none => simp only [hq, Except.error.injEq] at he'; exact he'.symm
-  | some r => simp only [hq] at he'; cases he'
+    ∃ b, IsUrl.is_url (isUrlEnv W) u linkOpts = .ok b :=
+  Ural.Props.C16.isurl_total_concrete W u linkOpts
 
 /-! ## `canonicalize_url` preserves `is_url` -/
 
@@ -45,16 +49,28 @@ def FullCanonPreservesIsUrl : Prop :=
   ∀ (W : World) (sf : Bool) (u c : Str),
     isUrlC W u = true → canonC W sf u = some c → isUrlC W c = true
 
-/-- **`canonicalize_url` preserves `is_url`** on `region`, when the idna decoder maps labels to
-labels: if `is_url(u, require_protocol=True, tld_aware=True, allow_spaces_in_path=True,
-only_http_https=True)` and `canonicalize_url(u, strip_fragment=sf)` returns `c`, then
-`is_url(c, …)`.  For every string `u` (surrounding whitespace, control characters, any
-userinfo / port / path / query / fragment, IPv4, localhost, names, punycode labels), both
-values of `strip_fragment`, every TLD table. -/
-theorem canon_preserves_is_url (W : World) (hpuny : PunyLabelSafe W.puny) (sf : Bool) (u c : Str)
-    (hr : region u = true) (hu : isUrlC W u = true) (hc : canonC W sf u = some c) :
+/-- the idna decoder maps to host labels the punycode labels that occur in the hostname `is_url`
+looks at for `u` (the pieces of `safe_urlsplit(u.strip()).hostname.split(".")` that start with
+`xn--` and are labels of the patterns).  A hypothesis about
+the codec on finitely many strings determined by `u`, which CPython's codec satisfies unless
+one of these very labels decodes to something with a leading / trailing hyphen (KF-C17-4) or
+another character outside the label classes. -/
+def PunySafeOnHostOf (W : World) (u : Str) : Prop :=
+  ∀ h, safeHostname (strip u) = .ok (some h) → PunyLabelSafeOn W.puny h
+
+/-- **`canonicalize_url` preserves `is_url`** on `region`, when the idna decoder maps the labels
+of the URL's hostname to labels: if `is_url(u, require_protocol=True, tld_aware=True,
+allow_spaces_in_path=True, only_http_https=True)` and `canonicalize_url(u, strip_fragment=sf)`
+returns `c`, then `is_url(c, …)`.  For every string `u` (surrounding whitespace, control
+characters, any userinfo / port / path / query / fragment, IPv4, localhost, names, punycode
+labels), both values of `strip_fragment`, every TLD table.  A side theorem about
+`canonicalize_url`: the clauses of `links_from_html` below do not depend on it. -/
+theorem canon_preserves_is_url_on (W : World) (sf : Bool) (u c : Str)
+    (hr : region u = true) (hpuny : PunySafeOnHostOf W u)
+    (hu : isUrlC W u = true) (hc : canonC W sf u = some c) :
     isUrlC W c = true := by
-  obtain ⟨sch, ui, H, po, tl, hsh, _, htld⟩ := shape_of_isUrl W u hu hr
+  obtain ⟨sch, ui, H, po, tl, hsh, hok0, htld⟩ := shape_of_isUrl W u hu hr
+  have hpuny : PunyLabelSafeOn W.puny (lower H) := hpuny _ (safeHostname_shape hsh hok0)
   obtain ⟨ui1, tl1, hsh1⟩ := clean_shape hsh
   obtain ⟨S, rest, hcl, _⟩ := cleanUrl_cleaned u "https".toList https_shaped
   simp only [canonC, canonicalizeUrl, canonicalizeSplit, canonOpts] at hc
@@ -103,11 +119,11 @@ theorem canon_preserves_is_url (W : World) (hpuny : PunyLabelSafe W.puny) (sf : 
             rw [hub'.2] at this; cases this
           · split at hm <;> simp at hm
       obtain ⟨ui2, po2, tl2, hsh2, hws, hui2, hpo2, hok2, hprint⟩ :=
-        canon_shape W.puny hpuny sf hsh1 hcl hpp hnb
+        canon_shape_on W.puny sf hsh1 hpuny hcl hpp hnb
       rw [hprint] at hc
       subst hc
       have hsch := hsh.sch.facts.2.1
-      obtain ⟨hHc, hlast⟩ := host_canon W.puny hpuny hsh.host
+      obtain ⟨hHc, hlast⟩ := host_canon_on W.puny hsh.host hpuny
       apply isUrl_of_shape W hsh2 hsch hws hui2 hpo2 hok2
       have hll : lower (canonHost W.puny (lower H)) = canonHost W.puny (lower H) := by
         unfold canonHost; rw [lower_lower]
@@ -120,6 +136,14 @@ theorem canon_preserves_is_url (W : World) (hpuny : PunyLabelSafe W.puny) (sf : 
         have hx := special_no_x_mem hsp
         rw [host_canon_id W.puny hx, lower_lower]
         exact hsp
+
+/-- the older form, under the GLOBAL hypothesis `PunyLabelSafe` (every label of the patterns
+decodes to a label).  Vacuous for CPython's codec, which is not `PunyLabelSafe`
+(`xn---a-cja` ↦ `-aé`); use `canon_preserves_is_url_on` for a statement that applies to it. -/
+theorem canon_preserves_is_url (W : World) (hpuny : PunyLabelSafe W.puny) (sf : Bool) (u c : Str)
+    (hr : region u = true) (hu : isUrlC W u = true) (hc : canonC W sf u = some c) :
+    isUrlC W c = true :=
+  canon_preserves_is_url_on W sf u c hr (fun h _ => hpuny.on h) hu hc
 
 /-! ### the hypotheses are needed (closed examples, evaluated by the kernel) -/
 
@@ -159,45 +183,42 @@ example :
       isUrlC w0 (s "http://uA:p@a.com/~b?x=1") = true := by
   decide +kernel
 
+/-- non-vacuity of the restricted hypothesis: the decoder of `w1` is NOT `PunyLabelSafe` (it is
+the one of `canon_not_preserving_bad_puny`), yet `canon_preserves_is_url_on` applies to a URL
+whose labels it decodes to labels -/
+example : PunySafeOnHostOf w1 (s " http://XN--B.com/p ") ∧ region (s " http://XN--B.com/p ") = true ∧
+    isUrlC w1 (s " http://XN--B.com/p ") = true ∧
+    canonC w1 false (s " http://XN--B.com/p ") = some (s "http://xn--b.com/p") := by
+  refine ⟨?_, by decide +kernel, by decide +kernel, by decide +kernel⟩
+  intro h hh
+  have e : (match safeHostname (strip (s " http://XN--B.com/p ")) with
+      | .ok o => o | .error _ => none) = some (s "xn--b.com") := by decide +kernel
+  rw [hh] at e
+  simp only [Option.some.injEq] at e
+  subst e
+  intro l hl _ hlab
+  have hs : splitOn (s "xn--b.com") '.' = [s "xn--b", s "com"] := by decide +kernel
+  rw [hs] at hl
+  simp only [List.mem_cons, List.not_mem_nil, or_false] at hl
+  rcases hl with rfl | rfl
+  · have : w1.puny (s "xn--b") = s "xn--b" := by decide +kernel
+    rw [this]; exact hlab
+  · have : w1.puny (s "com") = s "com" := by decide +kernel
+    rw [this]; exact hlab
+
 end Witnesses
 
 /-! ## the clauses of `links_from_html`, for the concrete model -/
 
 variable (W : World) (canonicalize unique sf : Bool)
 
-/-- the resolved hrefs (the strings `is_url` is asked about) lie in `region`; only needed with
-`canonicalize=True` -/
-def ResolvedInRegion (base : Str) (hrefs : List Str) : Prop :=
-  canonicalize = true → ∀ b, effectiveBase (concreteEnv W sf) ⟨canonicalize, unique⟩ base = .ok b →
-    ∀ h ∈ hrefs, ∀ u, resolve (concreteEnv W sf) b h = .ok u → isUrlC W u = true → region u = true
-
-/-- **every yielded link is accepted by `is_url`** — no hypothesis on the parameters any more:
-they are the models.  What remains is the class of inputs (`ResolvedInRegion`) and the law of
-the idna codec (`PunyLabelSafe`), both necessary (witnesses above). -/
-theorem links_are_urls_concrete (hpuny : PunyLabelSafe W.puny) (base : Str) (hrefs : List Str)
-    (hreg : ResolvedInRegion W canonicalize unique sf base hrefs) :
-    ∀ l ∈ (linksFromHtmlConcrete W canonicalize unique sf base hrefs).1, isUrlC W l = true := by
-  intro l hl
-  obtain ⟨b, h, u, h1, h2, _, _, h5, h6, h7, _, _⟩ :=
-    links_chain (concreteEnv W sf) ⟨canonicalize, unique⟩ base hrefs l hl
-  cases hc : canonicalize with
-  | false =>
-    subst hc
-    have : u = l := by simpa [finish] using h7
-    exact this ▸ h6
-  | true =>
-    subst hc
-    have hcan : canonC W sf u = some l := by
-      simp only [finish, concreteEnv, if_true] at h7
-      cases hcu : canonC W sf u with
-      | none => rw [hcu] at h7; simp [optToExcept] at h7
-      | some c => rw [hcu] at h7; simpa [optToExcept] using h7
-    exact canon_preserves_is_url W hpuny sf u l (hreg rfl b h1 h h2 u h5 h6) h6 hcan
-
-/-- without `canonicalize` nothing is assumed at all -/
-theorem links_are_urls_concrete_plain (base : Str) (hrefs : List Str) :
-    ∀ l ∈ (linksFromHtmlConcrete W false unique sf base hrefs).1, isUrlC W l = true :=
-  links_are_urls_partial (concreteEnv W sf) ⟨false, unique⟩ (Or.inl rfl) base hrefs
+/-- **every yielded link is accepted by `is_url`** — for the concrete models, with NO
+hypothesis: neither on the inputs nor on the idna codec / TLD table (`W` arbitrary).  Instance
+of `links_are_urls`: the chain tests `is_url` on the resolved href and, with
+`canonicalize=True`, again on its canonical form (links_from_html.py:48-56, /repo 6e8a1b4). -/
+theorem links_are_urls_concrete (base : Str) (hrefs : List Str) :
+    ∀ l ∈ (linksFromHtmlConcrete W canonicalize unique sf base hrefs).1, isUrlC W l = true :=
+  links_are_urls (concreteEnv W sf) ⟨canonicalize, unique⟩ base hrefs
 
 /-- what `is_url(…, only_http_https=True)` guarantees, for the model: proved, no longer assumed -/
 theorem isUrlC_implies_http : IsUrlImpliesHttp (concreteEnv W sf) := by
@@ -228,27 +249,27 @@ theorem httpMatch_not_hash (u : Str) (h : httpProtocolMatch u = true) : u.head? 
     | [_, _] => simp [httpProtocolMatch] at h
     | _ :: _ :: _ :: _ => simp [httpProtocolMatch] at h
 
-/-- **every yielded link is accepted by `should_follow_href`** -/
-theorem links_should_follow_concrete (hpuny : PunyLabelSafe W.puny) (base : Str) (hrefs : List Str)
-    (hreg : ResolvedInRegion W canonicalize unique sf base hrefs) :
+/-- **every yielded link is accepted by `should_follow_href`** — no hypothesis: the two
+hypotheses of `links_should_follow` are proved for the concrete models -/
+theorem links_should_follow_concrete (base : Str) (hrefs : List Str) :
     ∀ l ∈ (linksFromHtmlConcrete W canonicalize unique sf base hrefs).1,
-      shouldFollowHref (concreteEnv W sf) l = true := by
-  intro l hl
-  have hu := links_are_urls_concrete W canonicalize unique sf hpuny base hrefs hreg l hl
-  obtain ⟨h1, h2⟩ := isUrlC_implies_http W sf l hu
-  exact (shouldFollowHref_spec (concreteEnv W sf) l).mpr
-    ⟨h1, httpMatch_not_hash _ h2, fun _ => h2⟩
+      shouldFollowHref (concreteEnv W sf) l = true :=
+  links_should_follow (concreteEnv W sf) ⟨canonicalize, unique⟩ (isUrlC_implies_http W sf)
+    (fun u h => httpMatch_not_hash u h) base hrefs
 
-/-- **absolute http(s) URL**: a yielded link, stripped, starts with `http://` or `https://`
-(ASCII case-insensitive; U+017F for `s` is excluded by `is_url`'s own patterns only together
-with the TLD test, so it is allowed here as `HTTP_PROTOCOL_RE` allows it) -/
-theorem links_http_concrete (hpuny : PunyLabelSafe W.puny) (base : Str) (hrefs : List Str)
-    (hreg : ResolvedInRegion W canonicalize unique sf base hrefs) :
+/-- **absolute http(s) URL** — no hypothesis: a yielded link, stripped, is non-empty and starts
+with `http://` or `https://`, read as `HTTP_PROTOCOL_RE` (`^https?://`, `re.I`, Unicode) reads
+it: ASCII case-insensitively, and with U+017F (`ſ`) allowed for the `s` of `https` because
+`re.I` folds it onto `s`.  So `httpſ://…` is NOT excluded by this statement (is_url's own
+protocol class is `re.I` too; what refuses such a link on the real code is the TLD test on the
+hostname `urlsplit` reads, i.e. the TLD table, which is a parameter here).  The oracle checks
+`urlsplit(link).scheme in {http, https}` on the implementation. -/
+theorem links_http_concrete (base : Str) (hrefs : List Str) :
     ∀ l ∈ (linksFromHtmlConcrete W canonicalize unique sf base hrefs).1,
       strip l ≠ [] ∧ httpProtocolMatch (strip l) = true := by
   intro l hl
   exact isUrlC_implies_http W sf l
-    (links_are_urls_concrete W canonicalize unique sf hpuny base hrefs hreg l hl)
+    (links_are_urls_concrete W canonicalize unique sf base hrefs l hl)
 
 /-- never the (canonicalized, when requested) base URL — instance of `links_not_base` -/
 theorem links_not_base_concrete (base : Str) (hrefs : List Str) :
